@@ -56,73 +56,16 @@ func runC02(c *core.Ctx, o Options) {
 		"(a group entry's field must be parsed into the type its typed getter asserts); R3 — the Item switches of Group.AsTemplate, Component.AsTemplate and the decoder cover KeyValue, Group and Component and rebuild the same kind, at the same index, for every element; R4 — one fresh template per group entry: the entry is created by AsTemplate() inside the per-entry loop, " +
 		"filled from piece i and added exactly once, i ascending from 0 to the parsed count, which equals the number of pieces; R5 — a value is exactly the bytes from the end of its anchored 'tag=' to the next delimiter (first occurrence) or the end, handed to FromBytes unmodified; R6 — splitGroup partitions its input (the upper cut of a piece is the lower cut of the remainder) " +
 		"and a count mismatch is an error; R7 — every loop over template items in the decoder visits the whole slice and leaves early only with an error; R8 — group entries are cut at occurrences of SOH·firstTag·'=' (the whole tag up to and including '='), found after the current entry's first byte. Not decided: equality of values over all inputs, the choice among several well-anchored occurrences (C18), field order."
-	checkCodecs(c, "R1", map[string]bool{"tobytes": true, "frombytes": true, "isnull": true})
+	checkCodecs(c, "R1", map[string]bool{"tobytes": true, "frombytes": true, "isnull": true, "set": true})
 	// ---- R2
-	at := c.Func("fix", "KeyValue.AsTemplate")
-	impls := valueImpls(c)
-	if c.Anchor("typed templates", at != nil && len(impls) >= 7, fmt.Sprintf("KeyValue.AsTemplate; %d Value implementations", len(impls)), posOf(at)) {
-		paths, _ := an.EnumPaths(at, 512)
-		covered := map[string]string{}
-		var bad []string
-		for _, p := range paths {
-			if p.Return == nil || len(p.ResVals) != 1 {
-				continue
-			}
-			sel, rejected := switchedType(p, "kv.Value")
-			call, ok := p.ResVals[0].(*ssa.Call)
-			if !ok || !an.CalleeIs(&call.Call, "fix", "NewKeyValue") {
-				bad = append(bad, "a case does not return NewKeyValue(kv.Key, <empty value>)")
-				continue
-			}
-			if an.Render(call.Call.Args[0]) != "kv.Key" {
-				bad = append(bad, "the template copy gets key "+an.Render(call.Call.Args[0])+" instead of kv.Key")
-			}
-			made := ""
-			if mi, ok := an.ResolveOnPath(call.Call.Args[1], p).(*ssa.MakeInterface); ok { // the value may be chosen by a switch and passed to a single NewKeyValue
-				if n := an.NamedOf(mi.X.Type()); n != nil {
-					made = n.Obj().Name()
-				}
-				if _, isAlloc := mi.X.(*ssa.Alloc); !isAlloc {
-					bad = append(bad, "the template copy shares its value object with the original ("+an.Render(mi.X)+")")
-				}
-			}
-			if sel != "" {
-				covered[sel] = made
-				if made != sel {
-					bad = append(bad, fmt.Sprintf("a *%s field is templated as *%s: the parsed value will have the wrong Go type for the generated getter", sel, made))
-				}
-			} else {
-				// default: stands for every implementation not rejected explicitly
-				for _, im := range impls {
-					isRej := false
-					for _, r := range rejected {
-						if r == im {
-							isRej = true
-						}
-					}
-					if !isRej {
-						if _, dup := covered[im]; !dup {
-							covered[im] = made
-							if made != im {
-								bad = append(bad, fmt.Sprintf("a *%s field falls into the default case and is templated as *%s", im, made))
-							}
-						}
-					}
-				}
-			}
-		}
-		for _, im := range impls {
-			if _, ok := covered[im]; !ok {
-				bad = append(bad, "no case for *"+im)
-			}
-		}
-		c.Check(len(bad) == 0, "R2", "KeyValue.AsTemplate", "exhaustive over the Value implementations and type preserving, fresh value per copy", at.Pos(), fmt.Sprint(covered), strings.Join(bad, "; "))
-	}
+	checkTypedTemplates(c, "R2")
 	// ---- R3
 	checkTemplateRebuild(c, "R3")
 	decoderRules(c)
 	c.Explanation += " R4 also requires that nothing stores into the slice of pieces between the split and the per-entry decode (an entry shortened or replaced on the way silently loses the fields behind the cut)."
-	c.RuleMin = map[string]int{"R1": 28, "R2": 1, "R3": 4, "R4": 1, "R5": 2, "R6": 1, "R7": 3, "R8": 8}
+	c.Explanation += " R1 also covers Set of every value type (a Set that keeps the source text of an earlier parse re-emits the old value)."
+	c.Explanation += " R4 converse: the declared count of a group takes part in no comparison other than with the number of pieces found (and the loop bound)."
+	c.RuleMin = map[string]int{"R1": 28, "R2": 1, "R3": 4, "R4": 2, "R5": 2, "R6": 1, "R7": 3, "R8": 8}
 	c.MinObl = 30
 }
 
@@ -454,6 +397,9 @@ func decoderRules(c *core.Ctx) {
 		}
 		c.Check(len(bad) == 0, "R4", "state.unmarshal", "one fresh template per entry, filled from piece i, added once, for i = 0 … count−1 = pieces−1", um.Pos(), "AsTemplate inside the loop; AddEntry(entry) after the item loop; len(pieces) == count", strings.Join(bad, "; "))
 	}
+	// R4 (converse): the declared count decides nothing but the comparison with the number of entries found (and the loop bound) —
+	// any other test of it (a plausibility bound on the remaining bytes, a maximum) refuses messages the serializer produces
+	checkCountUses(c, "R4", um)
 	checkValueExtraction(c, "R5")
 	// ---- R8 entries are cut at the whole first tag: the separator handed to splitGroup is SOH·firstTag·'='
 	checkGroupSeparator(c, "R8")
@@ -831,7 +777,7 @@ func checkItemLoops(c *core.Ctx, rule string) {
 					}
 				}
 			}
-			if call == nil || head == nil || call.Block().Comment != "rangeindex.body" {
+			if call == nil || head == nil || call.Block().Comment != "rangeindex.body" || len(call.Call.Args) < 3 {
 				continue
 			}
 			ia, ok := unload(call.Call.Args[2]).(*ssa.IndexAddr)
@@ -937,4 +883,172 @@ func isItemLoopHelper(h, um *ssa.Function) bool {
 		}
 	})
 	return ok
+}
+
+// checkCountUses: every comparison the parsed count of a repeating group takes part in (directly or through arithmetic, in the
+// decoder or in a helper it is handed to) is with the length of a slice of pieces or with a loop index.
+func checkCountUses(c *core.Ctx, rule string, um *ssa.Function) {
+	isCmp := func(op token.Token) bool {
+		switch op {
+		case token.EQL, token.NEQ, token.LSS, token.LEQ, token.GTR, token.GEQ:
+			return true
+		}
+		return false
+	}
+	isLenOfPieces := func(v ssa.Value) bool {
+		call, ok := v.(*ssa.Call)
+		if !ok {
+			return false
+		}
+		b, ok := call.Call.Value.(*ssa.Builtin)
+		if !ok || b.Name() != "len" || len(call.Call.Args) != 1 {
+			return false
+		}
+		// a slice of byte slices (the pieces), not the data itself
+		sl, ok := call.Call.Args[0].Type().Underlying().(*types.Slice)
+		if !ok {
+			return false
+		}
+		_, inner := sl.Elem().Underlying().(*types.Slice)
+		return inner
+	}
+	isIndex := func(v ssa.Value) bool {
+		if phi, ok := v.(*ssa.Phi); ok {
+			return rangeIndexPhi(phi) != nil || len(phi.Edges) == 2
+		}
+		return rangeIndexPhi(v) != nil
+	}
+	nCnt, nCmp := 0, 0
+	var bad []string
+	var where token.Pos
+	seen := map[ssa.Value]bool{}
+	var follow func(v ssa.Value, depth int)
+	follow = func(v ssa.Value, depth int) {
+		if v == nil || seen[v] || depth > 8 || v.Referrers() == nil {
+			return
+		}
+		seen[v] = true
+		for _, ref := range *v.Referrers() {
+			switch x := ref.(type) {
+			case *ssa.BinOp:
+				if isCmp(x.Op) {
+					nCmp++
+					other := x.Y
+					if x.Y == v {
+						other = x.X
+					}
+					if !isLenOfPieces(other) && !isIndex(other) {
+						bad = append(bad, "the declared count is compared with "+an.Render(other)+" ("+an.Render(x)+") in "+an.NameOf(x.Parent()))
+						where = x.Pos()
+					}
+				} else {
+					follow(x, depth+1)
+				}
+			case *ssa.Convert:
+				follow(x, depth+1)
+			case *ssa.Call:
+				cal := an.StaticCallee(&x.Call)
+				if cal == nil || cal.Pkg != um.Pkg {
+					continue
+				}
+				for i, a := range x.Call.Args {
+					if a == v && i < len(cal.Params) {
+						follow(cal.Params[i], depth+1)
+					}
+				}
+			}
+		}
+	}
+	for _, fn := range an.PkgFuncs(um.Pkg) {
+		an.AllInstrs(fn, func(in ssa.Instruction) {
+			ta, ok := in.(*ssa.TypeAssert)
+			if !ok || !strings.HasSuffix(an.Render(ta), ".Value.Value().(int)") {
+				return
+			}
+			// the count of a group: the value of a KeyValue built with the group's NoTag
+			if owner, _ := an.LogicalOwner(fn); fn != um && owner != um {
+				return
+			}
+			nCnt++
+			if where == token.NoPos {
+				where = ta.Pos()
+			}
+			follow(ta, 0)
+		})
+	}
+	ob := c.Ob(rule, "state.unmarshal", "the declared count is tested only against the number of entries found", where)
+	switch {
+	case nCnt == 0:
+		ob.Fail("the parsed count of a repeating group was not found in the decoder (anchor moved)")
+	case len(bad) > 0:
+		ob.Fail("%s: a plausibility bound on the count refuses messages the serializer itself produces (entries can be shorter than any fixed estimate)", bad[0])
+	default:
+		ob.Ok("%d count value(s), %d comparison(s), all with the number of pieces or a loop index", nCnt, nCmp)
+	}
+}
+
+// checkTypedTemplates (C02.R2, C17.P3): KeyValue.AsTemplate has a case for every implementation of fix.Value and returns
+// NewKeyValue(kv.Key, <fresh empty value of the same concrete type>) — never the receiver or its value object (a template that is
+// shared between group entries makes a field populated in one entry appear in the others).
+func checkTypedTemplates(c *core.Ctx, rule string) {
+	at := c.Func("fix", "KeyValue.AsTemplate")
+	impls := valueImpls(c)
+	if c.Anchor("typed templates", at != nil && len(impls) >= 7, fmt.Sprintf("KeyValue.AsTemplate; %d Value implementations", len(impls)), posOf(at)) {
+		paths, _ := an.EnumPaths(at, 512)
+		covered := map[string]string{}
+		var bad []string
+		for _, p := range paths {
+			if p.Return == nil || len(p.ResVals) != 1 {
+				continue
+			}
+			sel, rejected := switchedType(p, "kv.Value")
+			call, ok := p.ResVals[0].(*ssa.Call)
+			if !ok || !an.CalleeIs(&call.Call, "fix", "NewKeyValue") {
+				bad = append(bad, "a case does not return NewKeyValue(kv.Key, <empty value>)")
+				continue
+			}
+			if an.Render(call.Call.Args[0]) != "kv.Key" {
+				bad = append(bad, "the template copy gets key "+an.Render(call.Call.Args[0])+" instead of kv.Key")
+			}
+			made := ""
+			if mi, ok := an.ResolveOnPath(call.Call.Args[1], p).(*ssa.MakeInterface); ok { // the value may be chosen by a switch and passed to a single NewKeyValue
+				if n := an.NamedOf(mi.X.Type()); n != nil {
+					made = n.Obj().Name()
+				}
+				if _, isAlloc := mi.X.(*ssa.Alloc); !isAlloc {
+					bad = append(bad, "the template copy shares its value object with the original ("+an.Render(mi.X)+")")
+				}
+			}
+			if sel != "" {
+				covered[sel] = made
+				if made != sel {
+					bad = append(bad, fmt.Sprintf("a *%s field is templated as *%s: the parsed value will have the wrong Go type for the generated getter", sel, made))
+				}
+			} else {
+				// default: stands for every implementation not rejected explicitly
+				for _, im := range impls {
+					isRej := false
+					for _, r := range rejected {
+						if r == im {
+							isRej = true
+						}
+					}
+					if !isRej {
+						if _, dup := covered[im]; !dup {
+							covered[im] = made
+							if made != im {
+								bad = append(bad, fmt.Sprintf("a *%s field falls into the default case and is templated as *%s", im, made))
+							}
+						}
+					}
+				}
+			}
+		}
+		for _, im := range impls {
+			if _, ok := covered[im]; !ok {
+				bad = append(bad, "no case for *"+im)
+			}
+		}
+		c.Check(len(bad) == 0, rule, "KeyValue.AsTemplate", "exhaustive over the Value implementations and type preserving, fresh value per copy", at.Pos(), fmt.Sprint(covered), strings.Join(bad, "; "))
+	}
 }
